@@ -270,8 +270,10 @@ def sym_deduper(vc):
                 check(it, 'step-yields', yields_match(it, events, outs, same_object=True))
                 check(it, 'step-state', env.lookup('keys').arr == seen2.arr)
                 cover(it, 'iter-reachable')
-            it.loops['deduper#L0'] = LoopSpec(at_start=at_start, at_end=at_end,
-                                              at_exit=lambda it, env: it.path.info.__setitem__('exit_mark', len(it.path.events)))
+            if pk_kind not in ('absent', 'empty'):
+                # (without a key the rows are handed on as they come: no loop)
+                it.loops['deduper#L0'] = LoopSpec(at_start=at_start, at_end=at_end,
+                                                  at_exit=lambda it, env: it.path.info.__setitem__('exit_mark', len(it.path.events)))
             it.run_generator(it.call(f, [rows]))
             ys = yields_of(it.path.events)
             yf = [e for e in it.path.events if e.kind == 'YieldFrom']
